@@ -111,9 +111,9 @@ def units(rng, tier):
             c = rng.choice(SCALES)
             us.append(tag(pack_unit(a, C * c, [x * c for x in v], rng, fmt=fmt, cmp=cmp, family=fam), grp, "scale", factor=c))
     # ---- agreement beyond oracle size
-    for _ in range(6 if tier == "quick" else 60):
-        n = rng.randint(11, 12 if tier == "quick" else 16)
-        k = (rng.choice([2, 3, 3, 4]) if tier == "quick" else rng.choice([2, 3, 3, 4, 5])) if n <= 13 else rng.choice([2, 3])
+    for _ in range(18 if tier == "quick" else 60):
+        n = rng.randint(10 if tier == "quick" else 11, 12 if tier == "quick" else 16)
+        k = (rng.choice([2, 3, 3, 3, 4, 4]) if tier == "quick" else rng.choice([2, 3, 3, 4, 5])) if n <= 13 else rng.choice([2, 3])
         if rng.random() < 0.4:
             # planted perfect partition: k bins of equal total
             T = rng.randint(30, 90)
